@@ -562,6 +562,16 @@ func (r *rewriter) selectStmt(s *ast.SelectStmt) ast.Stmt {
 // callSubst replaces os.Open and filepath.EvalSymlinks call targets.
 func (r *rewriter) callSubst(f *ast.File) {
 	ast.Inspect(f, func(n ast.Node) bool {
+		// a tree that hands the opened file to helpers declares them with
+		// *os.File: those become *simrt.File too (it embeds the real one)
+		if st, ok := n.(*ast.StarExpr); ok {
+			if s, ok := st.X.(*ast.SelectorExpr); ok && s.Sel.Name == "File" && fromPkg(info.Uses[s.Sel], "os") {
+				st.X = sel("simrt", "File")
+				r.osOpen = true
+				stats["*os.File"]++
+			}
+			return true
+		}
 		c, ok := n.(*ast.CallExpr)
 		if !ok {
 			return true
